@@ -150,8 +150,14 @@ fn check_context(c: &Ctx, l: &mut Local) -> Outcome {
         if let Some(d) = state_diff(&obs, &expected) {
             return fail(format!("C16/context round trip ({}) changes the context", route), expected.describe(), d, ctx_case(c), c.vars.len());
         }
+        // probed with builtins switched off on a copy: a user function named like a builtin must be
+        // gone, whichever layer answers for builtins while they are enabled
+        let mut probe = back.clone();
+        if probe.set_builtin_functions_disabled(true).is_err() {
+            return Ok(());
+        }
         for name in c.funcs.keys() {
-            match back.call_function(name, &evalexpr::Value::Int(1)) {
+            match probe.call_function(name, &evalexpr::Value::Int(1)) {
                 Err(EvalexprError::FunctionIdentifierNotFound(n)) if &n == name => {},
                 other => {
                     return fail(
